@@ -15,14 +15,21 @@ def main():
     meta = json.loads((d / "meta.json").read_text())
     if not checks:
         checks = [meta["property"]]
-    if subprocess.run(["git", "-C", "/repo", "diff", "--quiet"]).returncode != 0:
-        sys.exit("/repo is dirty")
-    if subprocess.run(["git", "-C", "/repo", "apply", str(d / "patch.diff")]).returncode != 0:
+    # the change is applied in a scratch worktree of /repo's HEAD (VERIF_REPO points the check at it), so /repo itself stays clean for
+    # checks running concurrently; equivalent to `git -C /repo apply` + `git -C /repo checkout -- .`
+    import os, tempfile
+    wt = tempfile.mkdtemp(prefix="wt-eval-", dir="/tmp")
+    os.rmdir(wt)
+    if subprocess.run(["git", "-C", "/repo", "worktree", "add", "-q", "--detach", wt, "HEAD"]).returncode != 0:
+        sys.exit("cannot create the scratch worktree")
+    if subprocess.run(["git", "-C", wt, "apply", str(d / "patch.diff")]).returncode != 0:
+        subprocess.run(["git", "-C", "/repo", "worktree", "remove", "--force", wt])
         sys.exit("patch does not apply to /repo HEAD")
     out = {}
     try:
         for c in checks:
-            r = subprocess.run(["./check", c, "--tier", tier], cwd=V, capture_output=True, text=True, timeout=3600)
+            r = subprocess.run(["./check", c, "--tier", tier], cwd=V, capture_output=True, text=True, timeout=3600,
+                               env=dict(os.environ, VERIF_REPO=wt))
             lines = [l for l in r.stdout.splitlines() if l.startswith("VIOLATION") or l.startswith("[")]
             first = None
             m = re.search(r"replay=(\S+)", r.stdout)
@@ -36,7 +43,7 @@ def main():
                       "summary": lines[-1] if lines else r.stderr[-300:], "first_violation": first}
             print(c, out[c]["exit"], out[c]["summary"])
     finally:
-        subprocess.run(["git", "-C", "/repo", "checkout", "--", "."])
+        subprocess.run(["git", "-C", "/repo", "worktree", "remove", "--force", wt])
     p = d / "detection.json"
     old = json.loads(p.read_text()) if p.exists() else {}
     old.update(out)
